@@ -49,6 +49,8 @@ type Store struct {
 	mu    sync.Mutex
 	files map[string][]byte
 	dirs  map[string]struct{} // directories created so far (they outlive their files, as on a file system)
+	inode map[string]uint64   // identity of the file behind a path (in-place mode: open handles follow the inode)
+	nino  uint64
 	Mode  Mode
 	// Sem refines File mode: which of the file engine's operations were
 	// observed (ProbeFileSystem) to publish their bytes atomically.
@@ -68,7 +70,7 @@ type FileSem struct {
 var DefaultFileSem FileSem
 
 func NewStore(mode Mode) *Store {
-	return &Store{files: map[string][]byte{}, dirs: map[string]struct{}{}, Mode: mode, Sem: DefaultFileSem}
+	return &Store{files: map[string][]byte{}, dirs: map[string]struct{}{}, inode: map[string]uint64{}, Mode: mode, Sem: DefaultFileSem}
 }
 
 func (s *Store) putInPlace() bool  { return s.Mode == File && !s.Sem.PutAtomic }
@@ -79,7 +81,10 @@ func (s *Store) putxInPlace() bool { return s.Mode == File && !s.Sem.PutxAtomic 
 func (s *Store) Clone() *Store {
 	s.mu.Lock()
 	defer s.mu.Unlock()
-	c := &Store{files: make(map[string][]byte, len(s.files)), dirs: make(map[string]struct{}, len(s.dirs)), Mode: s.Mode, Sem: s.Sem}
+	c := &Store{files: make(map[string][]byte, len(s.files)), dirs: make(map[string]struct{}, len(s.dirs)), inode: make(map[string]uint64, len(s.inode)), nino: s.nino, Mode: s.Mode, Sem: s.Sem}
+	for k, v := range s.inode {
+		c.inode[k] = v
+	}
 	for k, v := range s.files {
 		c.files[k] = v
 	}
@@ -189,6 +194,12 @@ type Hook interface {
 	Before(e Event) error
 }
 
+// AfterHook, if implemented by the Hook, is told the outcome of every event
+// as a digest of what the caller observed (contents read, error class).
+type AfterHook interface {
+	After(e Event, digest uint64)
+}
+
 // Engine is one process's view of the store.
 type Engine struct {
 	S      *Store
@@ -276,6 +287,27 @@ func (e *Engine) before(op, path string, n int) error {
 	return nil
 }
 
+func (e *Engine) after(op, path string, n int, parts ...[]byte) {
+	ah, ok := e.Hook.(AfterHook)
+	if !ok {
+		return
+	}
+	h := fnvNew()
+	for _, p := range parts {
+		h = fnvAdd(h, p)
+		h = fnvAdd(h, []byte{0xff})
+	}
+	ah.After(Event{Client: e.Client, Op: op, Path: e.rel(path), N: n}, h)
+}
+
+var (
+	dOK       = []byte("ok")
+	dNotExist = []byte("notexist")
+	dExist    = []byte("exist")
+	dTrue     = []byte("true")
+	dFalse    = []byte("false")
+)
+
 func key(u *storage.URI) string { return u.Path }
 
 func notExist(u *storage.URI) error { return fmt.Errorf("%s: %w", u, fs.ErrNotExist) }
@@ -311,10 +343,16 @@ func (r *reader) Read(p []byte) (int, error) {
 	}
 	b, _ := r.cur()
 	if r.off >= int64(len(b)) {
+		if r.live {
+			r.e.after("read", r.path, 0, []byte("eof"))
+		}
 		return 0, io.EOF
 	}
 	n := copy(p, b[r.off:])
 	r.off += int64(n)
+	if r.live {
+		r.e.after("read", r.path, n, p[:n])
+	}
 	return n, nil
 }
 
@@ -346,9 +384,15 @@ func (e *Engine) Get(_ context.Context, u *storage.URI) (storage.Reader, error) 
 	}
 	b, ok := e.S.Read(key(u))
 	if !ok {
+		e.after("get", key(u), 0, dNotExist)
 		return nil, notExist(u)
 	}
-	live := e.S.Mode == File && e.MutableRead != nil && e.MutableRead(e.rel(key(u)))
+	live := e.S.putInPlace() && e.MutableRead != nil && e.MutableRead(e.rel(key(u)))
+	if live {
+		e.after("get", key(u), 0, dOK)
+	} else {
+		e.after("get", key(u), len(b), dOK, b)
+	}
 	return &reader{e: e, path: key(u), b: b, live: live}, nil
 }
 
@@ -357,6 +401,8 @@ type writer struct {
 	path   string
 	buf    bytes.Buffer
 	closed bool
+	off    int    // file offset of this handle (in-place mode)
+	ino    uint64 // the file this handle refers to (in-place mode)
 }
 
 func (w *writer) Write(p []byte) (int, error) {
@@ -367,12 +413,22 @@ func (w *writer) Write(p []byte) (int, error) {
 		if err := w.e.before("write", w.path, len(p)); err != nil {
 			return 0, err
 		}
+		// pwrite at this handle's own offset: a concurrent truncation by
+		// another handle leaves a hole, a concurrent writer is overwritten.
 		w.e.S.mu.Lock()
-		old := w.e.S.files[w.path]
-		nb := make([]byte, len(old)+len(p))
-		copy(nb, old)
-		copy(nb[len(old):], p)
-		w.e.S.files[w.path] = nb
+		old, present := w.e.S.files[w.path]
+		if present && w.e.S.inode[w.path] == w.ino {
+			n := len(old)
+			if w.off+len(p) > n {
+				n = w.off + len(p)
+			}
+			nb := make([]byte, n)
+			copy(nb, old)
+			copy(nb[w.off:], p)
+			w.e.S.files[w.path] = nb
+		}
+		// (if the file was unlinked meanwhile the bytes go to the orphan inode)
+		w.off += len(p)
 		w.e.S.mu.Unlock()
 		return len(p), nil
 	}
@@ -416,9 +472,15 @@ func (e *Engine) Put(_ context.Context, u *storage.URI) (io.WriteCloser, error) 
 			e.S.mu.Unlock()
 			return nil, err
 		}
+		_, exists := e.S.files[key(u)]
+		if _, ok := e.S.inode[key(u)]; !ok || !exists {
+			e.S.nino++
+			e.S.inode[key(u)] = e.S.nino
+		}
+		ino := e.S.inode[key(u)]
 		e.S.files[key(u)] = nil
 		e.S.mu.Unlock()
-		return &writer{e: e, path: key(u)}, nil
+		return &writer{e: e, path: key(u), ino: ino}, nil
 	}
 	if err := e.before("put", key(u), 0); err != nil {
 		return nil, err
@@ -450,10 +512,12 @@ func (e *Engine) PutIfNotExists(_ context.Context, u *storage.URI, b []byte) err
 		}
 		if _, ok := e.S.files[key(u)]; ok {
 			e.S.mu.Unlock()
+			e.after("createx", key(u), 0, dExist)
 			return existErr(key(u))
 		}
 		e.S.files[key(u)] = nil
 		e.S.mu.Unlock()
+		e.after("createx", key(u), 0, dOK)
 		if err := e.before("write", key(u), len(b)); err != nil {
 			return err
 		}
@@ -471,9 +535,11 @@ func (e *Engine) PutIfNotExists(_ context.Context, u *storage.URI, b []byte) err
 		return err
 	}
 	if _, ok := e.S.files[key(u)]; ok {
+		e.after("putx", key(u), 0, dExist)
 		return existErr(key(u))
 	}
 	e.S.files[key(u)] = append([]byte(nil), b...)
+	e.after("putx", key(u), 0, dOK)
 	return nil
 }
 
@@ -484,9 +550,12 @@ func (e *Engine) Delete(_ context.Context, u *storage.URI) error {
 	e.S.mu.Lock()
 	defer e.S.mu.Unlock()
 	if _, ok := e.S.files[key(u)]; !ok {
+		e.after("delete", key(u), 0, dNotExist)
 		return notExist(u)
 	}
 	delete(e.S.files, key(u))
+	delete(e.S.inode, key(u))
+	e.after("delete", key(u), 0, dOK)
 	return nil
 }
 
@@ -500,6 +569,7 @@ func (e *Engine) DeleteByPrefix(_ context.Context, u *storage.URI) error {
 	for k := range e.S.files {
 		if strings.HasPrefix(k, prefix) || k == key(u) {
 			delete(e.S.files, k)
+			delete(e.S.inode, k)
 		}
 	}
 	for k := range e.S.dirs {
@@ -516,10 +586,15 @@ func (e *Engine) Exists(_ context.Context, u *storage.URI) (bool, error) {
 	}
 	e.S.mu.Lock()
 	defer e.S.mu.Unlock()
-	if _, ok := e.S.files[key(u)]; ok {
-		return true, nil
+	_, ok := e.S.files[key(u)]
+	if !ok {
+		_, ok = e.S.dirs[strings.TrimSuffix(key(u), "/")]
 	}
-	_, ok := e.S.dirs[strings.TrimSuffix(key(u), "/")]
+	if ok {
+		e.after("exists", key(u), 0, dTrue)
+	} else {
+		e.after("exists", key(u), 0, dFalse)
+	}
 	return ok, nil
 }
 
@@ -529,8 +604,10 @@ func (e *Engine) Size(_ context.Context, u *storage.URI) (int64, error) {
 	}
 	b, ok := e.S.Read(key(u))
 	if !ok {
+		e.after("size", key(u), 0, dNotExist)
 		return 0, notExist(u)
 	}
+	e.after("size", key(u), len(b), dOK)
 	return int64(len(b)), nil
 }
 
@@ -564,6 +641,7 @@ func (e *Engine) List(_ context.Context, u *storage.URI) ([]storage.Info, error)
 		}
 	}
 	if !found {
+		e.after("list", key(u), 0, dNotExist)
 		return nil, notExist(u)
 	}
 	names := make([]string, 0, len(seen))
@@ -575,6 +653,7 @@ func (e *Engine) List(_ context.Context, u *storage.URI) ([]storage.Info, error)
 	for i, n := range names {
 		out[i] = storage.Info{Name: n, Size: seen[n]}
 	}
+	e.after("list", key(u), len(names), []byte(fmt.Sprint(out)))
 	return out, nil
 }
 
